@@ -10,13 +10,13 @@ open Gen.Algo Py Sub Branches
 /-! ### `Tree.get_tips` -/
 
 theorem tips_loop : ∀ (xs : List Int) (v : get_tips.V),
-    ∃ ix, forEach get_tips.for1 xs v = .next { v with c0_ := v.c0_ ++ xs, i := ix } := by
+    ∃ ix, forEach get_tips.for1 xs v = .next { v with c1_ := v.c1_ ++ xs, i := ix } := by
   intro xs
   induction xs with
   | nil => intro v; exact ⟨v.i, by simp [forEach]⟩
   | cons x xs ih =>
     intro v
-    obtain ⟨ix, e⟩ := ih { v with i := x, c0_ := v.c0_ ++ [x] }
+    obtain ⟨ix, e⟩ := ih { v with i := x, c1_ := v.c1_ ++ [x] }
     refine ⟨ix, ?_⟩
     simp only [forEach, get_tips.for1]
     rw [e]
@@ -33,7 +33,7 @@ theorem distinct_iff : ∀ l : List Int, Py.distinct l = true ↔ l.Nodup := by
 the FIRST array repeats a value depends on the algorithm it picks: no claim is made there, `Py.setdiff1dUnique`) -/
 theorem getTips_refines (ids pids : List Int) (hd : ids.Nodup) : get_tips ids pids = some (getTips ids pids) := by
   obtain ⟨ix, e⟩ := tips_loop (ids.filter fun x => !pids.contains x)
-    { (default : get_tips.V) with ids := ids, pids := pids, tip_ids := ids.filter fun x => !pids.contains x, c0_ := [] }
+    { (default : get_tips.V) with ids := ids, pids := pids, tip_ids := ids.filter fun x => !pids.contains x, c1_ := [] }
   simp only [get_tips, get_tips.body, Py.seq, Py.bind, Py.bindS, Py.setdiff1dUnique, (distinct_iff ids).2 hd, if_true]
   rw [e]
   simp [Py.finish, getTips]
